@@ -305,6 +305,9 @@ func GenRequest(r *mon.Rand, tag string, i int, last bool, o GenOpts) *AReq {
 			}
 			if r.Chance(3) {
 				tn := []string{"X-T1", "X-T2", "x-t3", "Foo"}
+				if r.Chance(6) {
+					tn = []string{"0abc", "0", "X-T2", "00-x"} // a field name is a token: it may begin with a digit
+				}
 				r.Shuffle(len(tn), func(i, j int) { tn[i], tn[j] = tn[j], tn[i] })
 				for k := 1 + r.Intn(3); k > 0; k-- {
 					tv := r.Str("tv1", "tv2", "t v", "0")
